@@ -113,6 +113,7 @@ fn alphabet(n: usize, tier: Tier) -> Vec<Dev> {
             }));
         }
     }
+    d.extend(crate::devs::syntax_devs(true, false, true, true));
     d
 }
 
